@@ -112,11 +112,12 @@ def _sign_path(e, warm, compressed=True, second=False):
 
 
 def ob_sign():
-    runs = [sym_run(lambda: _sign_path(False), mode="int", timeout_ms=60000), sym_run(lambda: _sign_path(True), mode="int", timeout_ms=60000),
-            sym_run(lambda: _sign_path(False, compressed=False), mode="int", timeout_ms=60000),
-            sym_run(lambda: _sign_path(False, second=True), mode="int", timeout_ms=60000, max_paths=3000)]
+    runs = [sym_run(lambda: _sign_path(False), mode="int", timeout_ms=60000, max_violations=6),
+            sym_run(lambda: _sign_path(True), mode="int", timeout_ms=60000, max_violations=6),
+            sym_run(lambda: _sign_path(False, compressed=False), mode="int", timeout_ms=60000, max_violations=6),
+            sym_run(lambda: _sign_path(False, second=True), mode="int", timeout_ms=60000, max_paths=3000, max_violations=6)]
     m = merge_runs(runs)
-    if m["classes"].get("'ok'", 0) < 8:
+    if m["classes"].get("'ok'", 0) < 8 and not m["violations"]:
         m["inconclusive"].append("reachability twin: fewer than 4 parity paths per cache state reached")
     m["sample"] = {"d": "symbolic [1,N-1]", "msg/aux": "32 symbolic bytes", "paths": "key parity x nonce parity"}
     return m
@@ -191,6 +192,28 @@ def replay_sign(w):
     bad = got != want
     if not bad and got is not None:
         bad = not ref_verify(pk.point.x.num, msg, got)
+    if not bad:
+        # the model's hash values are uninterpreted: rebuild the witness classes that depend on hash *values* with real hashes --
+        # a masked secret t = d' xor H_aux(aux) with leading zero byte(s), found by stepping aux (about 256 trials per zero byte)
+        Pp = pk.point
+        dd = d if Pp.y.num % 2 == 0 else N - d
+        found = 0
+        for c in range(200000):
+            a2 = c.to_bytes(32, "big")
+            t = bytes(x ^ y for x, y in zip(dd.to_bytes(32, "big"), ref_tag(b"BIP0340/aux", a2)))
+            if t[0] != 0:
+                continue
+            found += 1
+            try:
+                g2 = pecc.PrivateKey(d, compressed=w.get("compressed", True)).sign_schnorr(msg, a2).serialize()
+            except Exception:
+                g2 = None
+            w2 = ref_sign(d, msg, a2)
+            if g2 != w2:
+                return {"violated": True, "observed": f"d={d:#x} aux={a2.hex()} (masked secret starts with {t[:2].hex()}): sign_schnorr="
+                                                      f"{g2.hex() if g2 else None} BIP340={w2.hex() if w2 else None}"}
+            if found >= 6 or (found >= 3 and t[1] == 0):
+                break
     return {"violated": bad, "observed": f"d={d:#x}: sign_schnorr={got.hex() if got else None} BIP340={want.hex() if want else None}"}
 
 
@@ -204,7 +227,7 @@ class _SSig:
 
 
 @with_env()
-def _verify_path(e, key_inf, r_inf):
+def _verify_path(e, key_inf, r_inf, history=False):
     F = e.fld
     d = 0 if key_inf else SI.var("d", 1, N - 1)
     rr = 0 if r_inf else SI.var("rr", 1, N - 1)
@@ -212,12 +235,25 @@ def _verify_path(e, key_inf, r_inf):
     msg = SBytes.sym("msg", 32)
     Ppt = e.point(d)
     Rpt = e.point(rr)
+    sigobj = _SSig(Rpt, s)
+    first = None
+    if history:
+        # the same key and signature objects were first asked about another message: the answer for msg stays BIP340's
+        msg0 = SBytes.sym("msg0", 32)
+        try:
+            first = bool(Ppt.verify_schnorr(msg0, sigobj))
+        except Exception:
+            first = False
 
     def wit(env):
-        return {"d": env.get("d", 0), "rr": env.get("rr", 0), "s": env["s"], "msg": bytes_env(env, "msg", 32).hex(),
-                "cls": "accept-without-equation"}
+        w = {"d": env.get("d", 0), "rr": env.get("rr", 0), "s": env["s"], "msg": bytes_env(env, "msg", 32).hex(),
+             "cls": "accept-without-equation"}
+        if history:
+            w["msg0"] = bytes_env(env, "msg0", 32).hex()
+            w["first"] = first
+        return w
     try:
-        got = bool(Ppt.verify_schnorr(msg, _SSig(Rpt, s)))
+        got = bool(Ppt.verify_schnorr(msg, sigobj))
     except Exception:
         got = False
     # BIP340 verification on the abstract group (P given by its x-only key => the even-y point)
@@ -237,8 +273,9 @@ def _verify_path(e, key_inf, r_inf):
                 want = False
             else:
                 want = bool(core.wrap(Tx) == core.wrap(Rx))
-    check(got == want, f"verify_schnorr answers {got} where BIP340 verification answers {want}", witness=wit)
-    return (got, want)
+    check(got == want, f"verify_schnorr answers {got} where BIP340 verification answers {want}"
+          + (f" (after verifying the same signature for another message answered {first})" if history else ""), witness=wit)
+    return (got, want) if not history else (first, got, want)
 
 
 def ob_verify():
@@ -250,10 +287,65 @@ def ob_verify():
     return m
 
 
+def ob_verify_history():
+    m = sym_run(lambda: _verify_path(False, False, history=True), mode="int", timeout_ms=60000)
+    if "(True, False, False)" not in m["classes"] or "(False, True, True)" not in m["classes"]:
+        m["inconclusive"].append("reachability twin: accepted-then-rejected or rejected-then-accepted history missing")
+    m["sample"] = {"history": "verify_schnorr(msg0, sig) then verify_schnorr(msg, sig) on the same point and signature objects", "all": "symbolic"}
+    return m
+
+
+def _replay_verify_history(w):
+    from buidl import pecc
+    d = w["d"] or 1
+    msg, msg0 = bytes.fromhex(w["msg"]), bytes.fromhex(w["msg0"])
+    if msg == msg0:
+        msg = bytes([msg[0] ^ 1]) + msg[1:]
+    pk = pecc.PrivateKey(d)
+    hist = []
+    # accepted first: genuine for msg0, then asked about msg; rejected first: genuine for msg, first offered under msg0
+    for (ma, mb) in ((msg0, msg), (msg, msg0), (msg0, msg0)):
+        for signed in (ma, mb):
+            sig = ref_sign(d, signed, b"\x00" * 32)
+            pt = pecc.S256Point.parse(pk.point.sec())
+            ss = pecc.SchnorrSignature.parse(sig)
+            try:
+                a = bool(pt.verify_schnorr(ma, ss))
+            except Exception:
+                a = False
+            try:
+                got = bool(pt.verify_schnorr(mb, ss))
+            except Exception:
+                got = False
+            want = ref_verify(pt.x.num, mb, sig)
+            hist.append((a, got, want))
+            if got != want:
+                return {"violated": True, "observed": f"on one point and signature object: verify_schnorr({ma.hex()}) = {a}, then verify_schnorr({mb.hex()}) = {got}; "
+                                                      f"BIP340 = {want} (signature {sig.hex()} made for {signed.hex()})"}
+    return {"violated": False, "observed": f"histories agree with BIP340: {hist}"}
+
+
 def replay_verify(w):
     """the abstract X values are uninterpreted; rebuild concrete tuples of the same class on the real curve: a genuine signature
     and its mutations, judged by the BIP340 reference verifier"""
     from buidl import pecc
+    if "msg0" in w:
+        return _replay_verify_history(w)
+    if not w["d"]:
+        # the key is the point at infinity (what parse_xonly makes of the all-zero x-only key): BIP340 rejects every signature
+        # (lift_x(0) fails), in particular (x(sG), s), for which the equation s*G - e*P = R holds trivially
+        msg = bytes.fromhex(w["msg"])
+        inf = pecc.S256Point.parse_xonly(b"\x00" * 32)
+        for k in [w["s"] % N or 1, 1, 2, 3, 4, 5]:
+            R = k * pecc.G
+            sig = R.x.num.to_bytes(32, "big") + k.to_bytes(32, "big")
+            try:
+                got = bool(inf.verify_schnorr(msg, pecc.SchnorrSignature.parse(sig)))
+            except Exception:
+                got = False
+            if got:
+                return {"violated": True, "observed": f"x-only key 00..00 (point at infinity): verify_schnorr({sig.hex()}) = True; BIP340 rejects (lift_x(0) fails)"}
+        return {"violated": False, "observed": "every signature is rejected under the all-zero key"}
     d = w["d"] or 1
     msg = bytes.fromhex(w["msg"])
     pk = pecc.PrivateKey(d)
@@ -406,7 +498,7 @@ def ob_constants():
 def obligations(tier):
     q = tier == "quick"
     primes = [11, 19, 23, 43] if q else [p for p in range(11, 252) if p % 4 == 3 and all(p % k for k in range(2, int(p ** 0.5) + 1))]
-    obs = [Ob("O0-constants", ob_constants), Ob("O1-sign-bip340", ob_sign, replay="sign"), Ob("O2-verify-bip340", ob_verify, replay="verify"),
+    obs = [Ob("O0-constants", ob_constants), Ob("O1-sign-bip340", ob_sign, replay="sign"), Ob("O2-verify-bip340", ob_verify, replay="verify"), Ob("O2-verify-history", ob_verify_history, replay="verify"),
            Ob("O3-s-range", ob_s_range, replay="s_range")]
     for i in range(0, len(primes), 4):
         obs.append(Ob("O3-lift-x", ob_lift, {"primes": tuple(primes[i:i + 4])}, replay="lift", budget_s=1200))
